@@ -391,6 +391,15 @@ def run(spec, ctx):
             for rel in rels:
                 for style in ("RELATIVE", "ROOT", "FLAT"):
                     check_case(ctx, impl.fresh(doc), mq, rr.top(mq), rel, [rr.top(a) for a in rel], style, "directed")
+        # members whose name is the keys-selector marker followed by their own value (`"~id": "id"`, `"~": ""`, `"#x": "x"`): they
+        # look like what the non-standard keys selector yields, and are ordinary members all the same
+        kdoc = {"o": {"~id": "id", "~": "", "#x": "x", "~a": "b", "id": "~id", "n": {"~deep": "deep", "k": 1}}, "arr": [{"~v": "v"}, {"~v": "w"}]}
+        for mq in (["q", "$", []], N("o"), N("arr", 0)):
+            for rel_ast in ([N("o", "~id")], [N("o", "~")], [N("o", "#x")], [N("o", "~a"), N("o", "~id")], [["q", "$", [["child", [["name", "o"]]], ["child", [["wild"]]]]]], [["q", "$", [["desc", [["name", "~deep"]]]]]], [["q", "$", [["desc", [["wild"]]]]]],
+                            [N("~id")], [N("~v")], [["q", "$", [["child", [["wild"]]]]]], [N("arr", 0, "~v"), N("arr", 1, "~v")]):
+                for style in ("RELATIVE", "ROOT", "FLAT"):
+                    check_case(ctx, impl.fresh(kdoc), mq, rr.top(mq), rel_ast, [Renderer(r, plain=True).top(a) for a in rel_ast], style, "directed")
+                    ctx.count("projections_of_members_named_like_key_matches")
         # member names that begin or end with a blank character beyond ASCII (legal name characters; only the four ASCII blanks
         # are insignificant in a query), next to the twin a trimmed reading would select; relative queries given as text in
         # every spelling: bracketed, dotted, and the bare name the documentation's examples use
